@@ -253,9 +253,12 @@ def main():
         outcome = {}
         try:
             fn = jit.compile_forms if kind == "forms" else jit.compile_expressions
+            extra = {}
+            if SPEC.get("cffi_libraries") and (r == 0 or not SPEC.get("cffi_libraries_once")):
+                extra["cffi_libraries"] = list(SPEC["cffi_libraries"])
             res_objs, module, code = fn(list(objs), options=dict(SPEC.get("options") or {}), cache_dir=SPEC["cache_dir"],
                                          timeout=int(SPEC.get("timeout", 30)),
-                                         cffi_extra_compile_args=list(SPEC.get("compile_args") or []))
+                                         cffi_extra_compile_args=list(SPEC.get("compile_args") or []), **extra)
             outcome["status"] = "returned"
             outcome["from_cache"] = code[0] is None
             outcome["module"] = module.__name__
